@@ -176,6 +176,7 @@ func (e *Exec) runRace() *Violation {
 	}
 	for _, ts := range e.trees {
 		if ts.cfg.Shared {
+			ts.api.Freeze()
 			if b := ts.api.Buf(); b != nil {
 				b.noTrack = true
 			}
